@@ -573,7 +573,8 @@ impl DrawState {
             if idx + 1 == self.lines.len() {
                 // For the last line of the output, keep the cursor on the right terminal
                 // side so that next user writes/prints will happen on the next line
-                let last_line_filler = line_height.as_usize() * term_width - line.console_width();
+                let last_line_filler =
+                    (line_height.as_usize() * term_width).saturating_sub(line.console_width());
                 term.write_str(&" ".repeat(last_line_filler))?;
             }
         }
@@ -661,7 +662,9 @@ impl LineType {
     fn wrapped_height(&self, width: usize) -> VisualLines {
         // Calculate real length based on terminal width
         // This take in account linewrap from terminal
-        let terminal_len = (self.console_width() as f64 / width as f64).ceil() as usize;
+        // (a terminal that reports zero columns is counted as one column wide: dividing by zero
+        // would make every non-empty line infinitely high)
+        let terminal_len = (self.console_width() as f64 / width.max(1) as f64).ceil() as usize;
 
         // If the line is effectively empty (for example when it consists
         // solely of ANSI color code sequences, count it the same as a
